@@ -179,6 +179,14 @@ def main():
         pg_one('pgsql.common.quote_literal', v, pgc.quote_literal(v), 'SCONST')
         g = pcg.SQLSourceGenerator(pcg.codegen.Options() if hasattr(pcg.codegen, 'Options') else None); g.visit_StringConstant(pgast.StringConstant(val=v)); pg_one('pgsql.codegen.visit_StringConstant', v, ''.join(g.result), 'SCONST')
         pg_one('pgsql.dbops.base.encode_value', v, dbops_base.encode_value(v), 'SCONST')
+        # values that are neither str nor numbers (names, uuids, enum members ...) are written as the literal of their str()
+        class _Named:
+            def __init__(self, s): self.s = s
+            def __str__(self): return self.s
+        pg_one('pgsql.dbops.base.encode_value(object with __str__)', v, dbops_base.encode_value(_Named(v)), 'SCONST')
+        nested = dbops_base.encode_value((_Named(v),))
+        if nested.startswith('ROW(') and nested.endswith(')'): pg_one('pgsql.dbops.base.encode_value((object,))', v, nested[4:-1], 'SCONST')
+        else: pg_one('pgsql.dbops.base.encode_value((object,))', v, nested, 'SCONST')
         if v != '':
             pg_one('pgsql.common.quote_ident', v, pgc.quote_ident(v), 'IDENT')
             pg_one('pgsql.common.quote_col', v, pgc.quote_col(v), 'COLIDENT')
